@@ -61,7 +61,7 @@ func c20r1(c *core.Ctx) {
 		c.Undecided("NewIPTransport", token.NoPos, "not found")
 		return
 	}
-	named := func(n string) func(*ssa.Function) bool { return func(g *ssa.Function) bool { return g.Name() == n } }
+	named := func(n string) func(*ssa.Function) bool { return func(g *ssa.Function) bool { return cn(g) == n } }
 	load := findCallTo(nt, named("load"))
 	dev := findCallTo(nt, named("NewSecuredDevice"))
 	hash := findCallTo(nt, named("ContentHash"))
@@ -69,7 +69,7 @@ func c20r1(c *core.Ctx) {
 	save := findCallTo(nt, named("save"))
 	var adds []ssa.Instruction
 	core.Instrs(nt, func(i ssa.Instruction) {
-		if g := core.Callee(i); g != nil && g.Name() == "addAccessory" {
+		if g := core.Callee(i); g != nil && cn(g) == "addAccessory" {
 			adds = append(adds, i)
 		}
 	})
@@ -285,7 +285,7 @@ func c20r3(c *core.Ctx) {
 	}
 	removed := ""
 	core.Instrs(f, func(i ssa.Instruction) {
-		if g := core.Callee(i); g != nil && g.Name() == "deleteFieldFromDict" {
+		if g := core.Callee(i); g != nil && cn(g) == "deleteFieldFromDict" {
 			removed, _ = core.ConstString(core.Args(i)[1])
 		}
 	})
@@ -296,7 +296,7 @@ func c20r3(c *core.Ctx) {
 		ok := false
 		if g != nil {
 			core.Instrs(g, func(i ssa.Instruction) {
-				if h := core.Callee(i); h != nil && h.Name() == callee {
+				if h := core.Callee(i); h != nil && cn(h) == callee {
 					ok = true
 				}
 			})
@@ -375,7 +375,7 @@ func c20r4(c *core.Ctx) {
 		n++
 		key := "write:Config.discoverable@" + fname(f)
 		switch {
-		case f.Name() == "defaultConfig":
+		case cn(f) == "defaultConfig":
 			v, isK := core.ConstInt(st.Val)
 			c.Check(isK && v == 1, key, st.Pos(), "default: discoverable", "the default is not 'discoverable'")
 		default:
@@ -483,7 +483,7 @@ func c20r4(c *core.Ctx) {
 			ok := false
 			if blk != nil {
 				for _, i := range blk.Instrs {
-					if g := core.Callee(i); g != nil && g.Name() == "updateMDNSReachability" {
+					if g := core.Callee(i); g != nil && cn(g) == "updateMDNSReachability" {
 						ok = true
 					}
 				}
